@@ -46,7 +46,7 @@ def gen_vcf(rng, tier):
                     alts.append(a)
             gts = {}
             style = rng.choice(['random', 'random', 'hom_split', 'all_ref', 'one_missing', 'uncarried_alt', 'uncarried_alt',
-                                'indel_last_sample', 'indel_last_sample'])
+                                'indel_last_sample', 'indel_last_sample', 'deletion_record'])
             if style == 'uncarried_alt':
                 # multi-allelic record whose later ALTs nobody carries (a second SNV alt or an untrimmed multi-base alt)
                 ref = rng.choice(BASES)
@@ -55,6 +55,11 @@ def gen_vcf(rng, tier):
                 alts = [others[0], others[1] if rng.random() < 0.6 else others[1] + rng.choice(BASES) + rng.choice(BASES)]
                 if rng.random() < 0.3:
                     alts.append(others[2])
+            elif style == 'deletion_record':
+                # multi-base REF with a single-base ALT (a deletion): never a single-nucleotide site for REF carriers
+                a = rng.choice(BASES)
+                ref = a + rng.choice(BASES)
+                alts = [a] if rng.random() < 0.7 else [a, rng.choice([b for b in BASES if b != a])]
             elif style == 'indel_last_sample':
                 # SNV alt + multi-base alt; only the LAST sample (often not selected) carries the multi-base allele
                 ref = rng.choice(BASES)
@@ -72,6 +77,8 @@ def gen_vcf(rng, tier):
                         i = (k % (len(alts) + 1))
                     elif style == 'uncarried_alt':
                         i = k % 2
+                    elif style == 'deletion_record':
+                        i = rng.choice([0, 1, 1, None]) if k else 1
                     elif style == 'indel_last_sample':
                         i = 2 if (k == len(samples) - 1 and len(samples) > 1) else k % 2
                     elif style == 'one_missing' and k == 0:
@@ -184,7 +191,7 @@ def gen_history(rng, v, kind):
     base = gen_config(rng, v)
     nruns = rng.choice([2, 3, 3, 4])
     runs = []
-    if kind == 'modes':         # every flag combination once, same configuration
+    if kind in ('modes', 'unphased'):         # every flag combination once, same configuration
         order = rng.sample(MODES, 4)
         flags = order[:nruns] if nruns < 4 else order
     else:
@@ -192,7 +199,7 @@ def gen_history(rng, v, kind):
         flags[0] = rng.choice([(False, True), (True, True)])     # make sure somebody writes the cache first
     for (lazy, cache) in flags:
         cfg = dict(base)
-        phased = True
+        phased = kind != 'unphased'
         if kind == 'xcfg' and rng.random() < 0.6:
             other = gen_config(rng, v)
             which = rng.choice(['ign', 'ign', 'sel', 'unphased'])
@@ -259,7 +266,7 @@ def from_scenario(scn):
     for h in scn['hist']:
         if h['ev'] == 'start':
             sel = h['cfg']['sel']
-            runs.append({'lazy': h['lazy'], 'cache': h['cache'], 'phased': True,
+            runs.append({'lazy': h['lazy'], 'cache': h['cache'], 'phased': bool(h['cfg'].get('ph', True)),
                          'sel': sorted(sel['s']) if sel['explicit'] else None,
                          'ign': [list(x) for x in h['cfg']['ign']] or None, 'ops': []})
         else:
@@ -290,7 +297,7 @@ def main():
             pysam.tabix_index(gz, preset='vcf', force=True)
             hists = []
             for h in range(nh):
-                kind = ['modes', 'random', 'xcfg'][h % 3]
+                kind = ['modes', 'random', 'xcfg', 'unphased', 'modes', 'xcfg'][h % 6]
                 hd = os.path.join(work, 'h%d' % h)
                 os.makedirs(hd)
                 link = os.path.join(hd, 'v.vcf.gz')
